@@ -3,10 +3,12 @@ import random
 import tracegen
 import framework as fw
 import loader_common as lc
+import translate
 
 ID = "C01"
 COQ_IMPORTS = lc.COQ_IMPORTS
 SOURCES = lc.SOURCES
+TRANSLATE = [translate.gen_rounding]
 N_CASES = {"quick": 300, "thorough": 5000}
 RULE = ("generated file sets (1-3 ranks; metadata/flow/instant/'Trace' entries interleaved; entries without cat; string stream args; shuffled order; "
         "epoch offsets 0, 1e6, 1.7e15; .json and .json.gz), both parse-only and full load, every row and every primary column compared; one case in five has "
@@ -168,7 +170,8 @@ LEVEL_TEXT = ("Proof: C01_rows_bijection / C01_no_incomplete_row / C01_fields (r
               "-1 defaults), C01_shift_uniform (one constant = global minimum, earliest row at 0), C01_end_is_ts_plus_dur, C01_round_inward / "
               "C01_round_preserves_containment / C01_round_preserves_disjointness (for all rationals). Correspondence on every row and primary column of "
               "Trace.get_trace(rank) after parse_traces() and after load_traces(), Trace.min_ts, and the end column."
-              " C01_load_ids_unique: after a full load of ANY file set every row id occurs at most once in every rank (the trailing-step filter cannot duplicate a row, however many kept host rows carry a correlation id).")
+              " C01_load_ids_unique: after a full load of ANY file set every row id occurs at most once in every rank (the trailing-step filter cannot duplicate a row, however many kept host rows carry a correlation id)."
+              " C01_rounding_follows_source: the rounding model is the rule regenerated from round_down_time_stamps on every run (two guards, ceil / floor / difference).")
 LEVEL_NOTE = ("Hand model of _parse_trace_dataframe_json/_compress_df/_align_all_ranks/round_down_time_stamps; JSON and gzip codecs, ijson back-ends and "
               "IEEE addition are outside the model (the harness supplies the double sum). Trusted: Coq kernel, harness, pandas.")
 TECHNIQUE = "Coq proof over a Gallina model of the loader (list induction; Q floor/ceiling monotonicity) + differential correspondence via vm_compute"
